@@ -498,9 +498,16 @@ def c10(tier):
         tasks += gen_tasks(tier, cfgs, cfg_mode="rotate", sample_every=Q(tier, 97, 997))
     except NameError:
         pass
+    # text that is kept verbatim next to formatted lines, indented with the OTHER character (tab-indented sources with
+    # `pasfmt off` regions, asm bodies): the indentation of a formatted line is built from the settings, never copied
+    cfgs2 = [{"tab_width": tw, "continuation_indents": ci, "wrap_column": 4294967295} for tw, ci in [(1, 1), (2, 1), (1, 2), (2, 2), (3, 1), (4, 2), (1, 0), (8, 1)]]
+    tasks += program_tasks(tier, cfgs2, [REGIONS, {"mode": 4, "regions": True, "blank_lines": True}, {"mode": 4, "regions": True, "regions2": True, "comments": True}],
+                           cfg_mode="rotate", sample_every=Q(tier, 499, 4999))
+    na = Q(tier, 3000, 30000)
+    tasks += split_tasks("asm", {"count": na, "seed": SEED + 2}, na, [], cfgs2, chunks=16, cfg_mode="rotate", sample_every=Q(tier, 499, 4999))
     c.explore(tasks, "tabs", ["C10"], sample_cap=Q(tier, 150, 800))
     return c.finish(
-        rule="seeds and generated programs, wrap_column = 2^32-1, (tab_width, continuation_indents) over {0,1,2,3,4,8,16,127,128,255}^2 (thorough: + 400 random pairs, and the full product on the first 100 pairs): "
+        rule="seeds, generated programs (also tab-indented sources with verbatim regions) and asm bodies, wrap_column = 2^32-1, (tab_width, continuation_indents) over {0,1,2,3,4,8,16,127,128,255}^2 (thorough: + 400 random pairs, and the full product on the first 100 pairs): "
              "use_tabs result with leading tabs expanded = use_tabs=false result (relation tabs), and every line's indentation = (levels + ci*continuations) units on the final table of both runs")
 
 
